@@ -63,7 +63,9 @@ class PROP(Prop):
                 R, W, req, drop = "-", "-", ("RHR", 1, 1), "-"
                 if disconnected:
                     # whatever is asked of an inert client -- also what the encoder would refuse -- the answer is NotConnected
-                    req = rng.choice([("RHR", 1, 1), ("RHR", 1, 1), ("WMR", 0, [1] * 130), ("CU", 0x41, bytes(300)), ("WMC", 0, [True] * 2100), ("RSI",), ("RWMR", 1, 1, 2, [5] * 125)])
+                    req = rng.choice([("RHR", 1, 1), ("RHR", 1, 1), ("WMR", 0, [1] * 130), ("CU", 0x41, bytes(300)), ("WMC", 0, [True] * 2100), ("RSI",), ("RWMR", 1, 1, 2, [5] * 125),
+                                      ("WMR", 3, []), ("WMC", 3, []), ("RC", 1, 0), ("RHR", 1, 0), ("WSR", 1, 2)])
+                    typed_inert = req[0] not in ("CU", "RSI") and rng.random() < 0.6      # the typed methods too (empty writes, zero quantities)
                 if not disconnected:
                     good = cligen.frame(proto, ncall, slave, b"\x03\x02\x00\x07").hex()
                     e = rng.choice(ENDS) if end == "mix" else end
@@ -92,7 +94,7 @@ class PROP(Prop):
                         W = "a3,e:TimedOut,e:PermissionDenied,e:PermissionDenied"
                     elif e == "dropr":
                         R, drop = "p,p,p", "2"
-                ops.append(cligen.call_op(req, W=W, R=R, drop=drop))
+                ops.append(cligen.call_op(req, W=W, R=R, drop=drop, typed=disconnected and typed_inert))
                 ncall += 1
             elif o == "d":
                 ops.append("disc %s" % (sh if not disconnected else rng.choice(["ok", "e:Other", "-"])))
